@@ -75,6 +75,19 @@ impl<D, E> Reader<D, E> {
     }
 }
 
+impl<D, E> Drop for Reader<D, E> {
+    /// Tells the writer the body is gone (client disconnected): releases what was queued and
+    /// makes later flushes fail with `BrokenPipe` rather than buffering forever.
+    fn drop(&mut self) {
+        if let Ok(mut l) = self.shared.lock() {
+            let old = std::mem::replace(&mut l.state, SharedState::ReaderFused);
+            l.waker = None;
+            drop(l);
+            drop(old); // might be slow; release lock first.
+        }
+    }
+}
+
 impl<D, E> futures_core::Stream for Reader<D, E>
 where
     D: From<Vec<u8>>,
